@@ -69,6 +69,7 @@ structure Decl where
   hdr : Text         -- source from `d.Pos()` up to the body's `{`; the whole `d.Pos()..d.End()` when no body
   inner : Text       -- source between the body's braces
   hasBody : Bool
+  canon : Text := []  -- the body as gofmt prints it, trimmed (Spec side only; `trim inner` for a gofmt-ed file)
   deriving DecidableEq, Repr, Inhabited
 
 /-- the `{ … }` of the declaration: `Body.Pos() .. Body.End()` -/
@@ -194,25 +195,32 @@ def ambient : List Import := [
   ⟨"graphql", "github.com/99designs/gqlgen/graphql", "graphql"⟩,
   ⟨"introspection", "github.com/99designs/gqlgen/graphql/introspection", "introspection"⟩]
 
+/-- the name the user's import spec binds in the old file -/
+def userLocal (i : Import) : String := if i.alias == "" then i.pkg else i.alias
+
 /-- `Imports.Reserve(path, alias?)` with the error ignored, as `File.Imports` does: a path that is
 already there, or an alias that is already taken, silently drops the import. The reserved entry's
 `alias` is always explicit (the package name when the user gave none). -/
 def reserve1 (acc : List Import) (i : Import) : List Import :=
-  let al := if i.alias == "" then i.pkg else i.alias
-  if acc.any (·.path == i.path) then acc
-  else if acc.any (·.alias == al) then acc
-  else acc ++ [{ i with alias := al }]
+  if acc.any (·.path == i.path) || acc.any (·.alias == userLocal i) then acc
+  else acc ++ [{ i with alias := userLocal i }]
 
 def reserve (user : List Import) : List Import := user.foldl reserve1 ambient
 
 def isSuffixStr (suf s : String) : Bool := suf.toList.isSuffixOf s.toList
 
-/-- the name under which a reserved import is visible in the written file: `Import.String` omits the
-alias when the path merely *ends with* it, and then Go uses the real package name -/
-def printedLocal (i : Import) : String := if isSuffixStr i.alias i.path then i.pkg else i.alias
+/-- `Import.String` leaves the alias out, under either form of the condition -/
+def omitAliasWith (rule : AliasOmitRule) (i : Import) : Bool :=
+  match rule with
+  | .suffixOnly => isSuffixStr i.alias i.path
+  | .suffixAndName => isSuffixStr i.alias i.path && (i.alias == i.pkg || i.pkg == "")
 
-/-- the name the user's import spec binds in the old file -/
-def userLocal (i : Import) : String := if i.alias == "" then i.pkg else i.alias
+/-- … with the condition that is in the source now (regenerated) -/
+def omitAlias (i : Import) : Bool := omitAliasWith aliasOmitRule i
+
+/-- the name under which a reserved import is visible in the written file: without a written alias Go
+uses the real package name -/
+def printedLocal (i : Import) : String := if omitAlias i then i.pkg else i.alias
 
 /-- `imports.Prune`: drop what the file's code does not mention (`_` and `.` imports stay) -/
 def prune (used : List String) (l : List Import) : List Import :=
@@ -241,27 +249,44 @@ structure NewFile where
   deriving DecidableEq, Repr, Inhabited
 
 def defaultImpl (f : Field) : Text :=
-  ("panic(fmt.Errorf(\"not implemented: " ++ f.goName ++ " - " ++ f.name ++ "\"))").toList
-def defaultDoc (f : Field) : Text := (f.goName ++ " is the resolver for the " ++ f.name ++ " field.").toList
+  "panic(fmt.Errorf(\"not implemented: ".toList ++ f.goName.toList ++ " - ".toList ++ f.name.toList ++ "\"))".toList
+def defaultDoc (f : Field) : Text := f.goName.toList ++ " is the resolver for the ".toList ++ f.name.toList ++ " field.".toList
 def singleDefaultImpl : Text := "panic(\"not implemented\")".toList
 
-/-- the `Resolver{…}` built for one field -/
+/-- what resolvergen reads off a previous declaration -/
+structure Content where
+  body : Text     -- `strings.TrimSpace(rewriter.GetMethodBody(…))`
+  namedV : String
+  namedE : String
+  comment : Text  -- `strings.TrimSpace(strings.TrimLeft(rewriter.GetMethodComment(…), "\\"))`
+  deriving DecidableEq, Repr
+
+def content (d : Decl) : Content := ⟨trim (getMethodBody d), d.namedV, d.namedE, trim (trimBackslashes d.doc)⟩
+
+def implStrOf (c : Option Content) : Text := match c with | some c => c.body | none => []
+def commentOf (c : Option Content) : Text := match c with | some c => c.comment | none => []
+/-- is the previous declaration (comment, named results) carried into the `Resolver{…}`? The follow-schema
+layout always carries it, the single-file layout only when the trimmed body is not empty. -/
+def keepOf (cfg : Cfg) (c : Option Content) : Bool :=
+  match cfg.layout with | .follow => c.isSome | .single => implStrOf c != []
+def keptComment (cfg : Cfg) (c : Option Content) : Text := if keepOf cfg c then commentOf c else []
+/-- the body written for a resolver without a previous implementation -/
+def defaultFor (cfg : Cfg) (f : Field) : Text :=
+  match cfg.layout with | .follow => defaultImpl f | .single => singleDefaultImpl
+
+/-- the `Resolver{…}` built for one field from what was read off the previous declaration (`none`: there is
+none); `doc` / `impl` are what the template and `Resolver.Implementation` make of it. -/
+def mkOf (cfg : Cfg) (o : Obj) (f : Field) (c : Option Content) : NewMethod :=
+  { recv := structName cfg o, name := f.goName, gqlName := f.name
+    doc := if keptComment cfg c != [] then keptComment cfg c else if cfg.omitTemplateComment then [] else defaultDoc f
+    namedV := if keepOf cfg c then (c.map (·.namedV)).getD "" else ""
+    namedE := if keepOf cfg c then (c.map (·.namedE)).getD "" else ""
+    impl := if implStrOf c != [] then implStrOf c else defaultFor cfg f
+    hasPrev := keepOf cfg c }
+
+/-- … with `GetPrevDecl` -/
 def mkMethod (cfg : Cfg) (p : Pkg) (o : Obj) (f : Field) : NewMethod :=
-  let s := structName cfg o
-  let docOr (c : Text) : Text := if c != [] then c else if cfg.omitTemplateComment then [] else defaultDoc f
-  match firstMatch p s f.goName with
-  | some (_, d) =>
-    let comment := trim (trimBackslashes d.doc)
-    let impl := trim (getMethodBody d)
-    if impl != [] then
-      { recv := s, name := f.goName, gqlName := f.name, doc := docOr comment, namedV := d.namedV, namedE := d.namedE, impl := impl, hasPrev := true }
-    else match cfg.layout with
-      | .follow => { recv := s, name := f.goName, gqlName := f.name, doc := docOr comment, namedV := d.namedV, namedE := d.namedE, impl := defaultImpl f, hasPrev := true }
-      | .single => { recv := s, name := f.goName, gqlName := f.name, doc := docOr [], namedV := "", namedE := "", impl := singleDefaultImpl, hasPrev := false }
-  | none =>
-    match cfg.layout with
-    | .follow => { recv := s, name := f.goName, gqlName := f.name, doc := docOr [], namedV := "", namedE := "", impl := defaultImpl f, hasPrev := false }
-    | .single => { recv := s, name := f.goName, gqlName := f.name, doc := docOr [], namedV := "", namedE := "", impl := singleDefaultImpl, hasPrev := false }
+  mkOf cfg o f ((firstMatch p (structName cfg o) f.goName).map fun kd => content kd.2)
 
 inductive Item
   | obj (name : String)
@@ -302,12 +327,32 @@ def regenerate (cfg : Cfg) (p : Pkg) (sch : Schema) : List NewFile := (outNames 
 def prefixLines (pre : Text) (t : Text) : Text :=
   pre ++ t.flatMap fun c => if c == '\n' then '\n' :: pre else [c]
 
+def dropPrefix (pre t : Text) : Text := if pre.isPrefixOf t then t.drop pre.length else t
+
+theorem dropPrefix_length_le (pre t : Text) : (dropPrefix pre t).length ≤ t.length := by
+  unfold dropPrefix; split <;> simp
+
+/-- undo `prefixLines`: drop the prefix at the start of every line -/
+def unprefixTail (pre : Text) : Text → Text
+  | [] => []
+  | c :: t =>
+    if c == '\n' then '\n' :: unprefixTail pre (dropPrefix pre t) else c :: unprefixTail pre t
+termination_by t => t.length
+decreasing_by
+  all_goals simp_wf
+  · exact Nat.lt_succ_of_le (dropPrefix_length_le pre t)
+
+def unprefixLines (pre : Text) (t : Text) : Text := unprefixTail pre (dropPrefix pre t)
+
+/-- the six `//` lines of the template above the leftover code (a character list literal, so that the
+kernel can run the scanner over it cheaply) -/
 def warningHeader : Text :=
-  ("// !!! WARNING !!!\n// The code below was going to be deleted when updating resolvers. It has been copied here so you have\n" ++
-   "// one last chance to move it out of harms way if you want. There are two reasons this happens:\n" ++
-   "//  - When renaming or deleting a resolver the old code will be put in here. You can safely delete\n" ++
-   "//    it when you're done.\n" ++
-   "//  - You have helper methods in this file. Move them out to keep these resolver files clean.\n").toList
+  ['/', '/', ' ', '!', '!', '!', ' ', 'W', 'A', 'R', 'N', 'I', 'N', 'G', ' ', '!', '!', '!', '\n'] ++
+  ['/', '/', ' ', 'T', 'h', 'e', ' ', 'c', 'o', 'd', 'e', ' ', 'b', 'e', 'l', 'o', 'w', ' ', 'w', 'a', 's', ' ', 'g', 'o', 'i', 'n', 'g', ' ', 't', 'o', ' ', 'b', 'e', ' ', 'd', 'e', 'l', 'e', 't', 'e', 'd', ' ', 'w', 'h', 'e', 'n', ' ', 'u', 'p', 'd', 'a', 't', 'i', 'n', 'g', ' ', 'r', 'e', 's', 'o', 'l', 'v', 'e', 'r', 's', '.', ' ', 'I', 't', ' ', 'h', 'a', 's', ' ', 'b', 'e', 'e', 'n', ' ', 'c', 'o', 'p', 'i', 'e', 'd', ' ', 'h', 'e', 'r', 'e', ' ', 's', 'o', ' ', 'y', 'o', 'u', ' ', 'h', 'a', 'v', 'e', '\n'] ++
+  ['/', '/', ' ', 'o', 'n', 'e', ' ', 'l', 'a', 's', 't', ' ', 'c', 'h', 'a', 'n', 'c', 'e', ' ', 't', 'o', ' ', 'm', 'o', 'v', 'e', ' ', 'i', 't', ' ', 'o', 'u', 't', ' ', 'o', 'f', ' ', 'h', 'a', 'r', 'm', 's', ' ', 'w', 'a', 'y', ' ', 'i', 'f', ' ', 'y', 'o', 'u', ' ', 'w', 'a', 'n', 't', '.', ' ', 'T', 'h', 'e', 'r', 'e', ' ', 'a', 'r', 'e', ' ', 't', 'w', 'o', ' ', 'r', 'e', 'a', 's', 'o', 'n', 's', ' ', 't', 'h', 'i', 's', ' ', 'h', 'a', 'p', 'p', 'e', 'n', 's', ':', '\n'] ++
+  ['/', '/', ' ', ' ', '-', ' ', 'W', 'h', 'e', 'n', ' ', 'r', 'e', 'n', 'a', 'm', 'i', 'n', 'g', ' ', 'o', 'r', ' ', 'd', 'e', 'l', 'e', 't', 'i', 'n', 'g', ' ', 'a', ' ', 'r', 'e', 's', 'o', 'l', 'v', 'e', 'r', ' ', 't', 'h', 'e', ' ', 'o', 'l', 'd', ' ', 'c', 'o', 'd', 'e', ' ', 'w', 'i', 'l', 'l', ' ', 'b', 'e', ' ', 'p', 'u', 't', ' ', 'i', 'n', ' ', 'h', 'e', 'r', 'e', '.', ' ', 'Y', 'o', 'u', ' ', 'c', 'a', 'n', ' ', 's', 'a', 'f', 'e', 'l', 'y', ' ', 'd', 'e', 'l', 'e', 't', 'e', '\n'] ++
+  ['/', '/', ' ', ' ', ' ', ' ', 'i', 't', ' ', 'w', 'h', 'e', 'n', ' ', 'y', 'o', 'u', '\'', 'r', 'e', ' ', 'd', 'o', 'n', 'e', '.', '\n'] ++
+  ['/', '/', ' ', ' ', '-', ' ', 'Y', 'o', 'u', ' ', 'h', 'a', 'v', 'e', ' ', 'h', 'e', 'l', 'p', 'e', 'r', ' ', 'm', 'e', 't', 'h', 'o', 'd', 's', ' ', 'i', 'n', ' ', 't', 'h', 'i', 's', ' ', 'f', 'i', 'l', 'e', '.', ' ', 'M', 'o', 'v', 'e', ' ', 't', 'h', 'e', 'm', ' ', 'o', 'u', 't', ' ', 't', 'o', ' ', 'k', 'e', 'e', 'p', ' ', 't', 'h', 'e', 's', 'e', ' ', 'r', 'e', 's', 'o', 'l', 'v', 'e', 'r', ' ', 'f', 'i', 'l', 'e', 's', ' ', 'c', 'l', 'e', 'a', 'n', '.', '\n']
 
 def blockEnd : Text := ['*', '/']
 
@@ -320,35 +365,36 @@ def trailer (mode : TrailerMode) (rem : Text) : Text :=
       if hasInfix blockEnd rem then warningHeader ++ prefixLines "// ".toList rem ++ ['\n']
       else warningHeader ++ "/*\n\t".toList ++ rem ++ "\n\t*/\n".toList
 
-/-- skip a `//` comment: everything up to and including the newline -/
-def skipLine : Text → Text
-  | [] => []
-  | c :: t => if c == '\n' then t else skipLine t
+/-- Go's scanner on the tail of a file, as a state machine over characters: outside a comment only white
+space and `/` are acceptable. -/
+inductive LexSt
+  | code        -- outside any comment
+  | slash       -- just read `/`
+  | line        -- inside a `//` comment
+  | block       -- inside a `/* */` comment
+  | blockStar   -- inside a `/* */` comment, just read `*`
+  deriving DecidableEq, Repr
 
-/-- skip the rest of a `/* */` comment; `none` when it is not terminated -/
-def skipBlock : Text → Option Text
-  | [] => none
-  | [_] => none
-  | a :: b :: t => if a == '*' && b == '/' then some t else skipBlock (b :: t)
+def lexStep : LexSt → Char → Option LexSt
+  | .code, c => if isSpace c then some .code else if c == '/' then some .slash else none
+  | .slash, c => if c == '/' then some .line else if c == '*' then some .block else none
+  | .line, c => if c == '\n' then some .code else some .line
+  | .block, c => if c == '*' then some .blockStar else some .block
+  | .blockStar, c => if c == '/' then some .code else if c == '*' then some .blockStar else some .block
 
-/-- Go's scanner on a file tail: only white space and comments up to EOF (`fuel` bounds the recursion; the
-length of the text is always enough) -/
-def commentsOnly : Nat → Text → Bool
-  | _, [] => true
-  | 0, _ => false
-  | n + 1, c :: t =>
-    if isSpace c then commentsOnly n t
-    else if c == '/' then
-      match t with
-      | '/' :: t' => commentsOnly n (skipLine t')
-      | '*' :: t' => match skipBlock t' with
-        | some r => commentsOnly n r
-        | none => false
-      | _ => false
-    else false
+def lexRun : LexSt → Text → Option LexSt
+  | s, [] => some s
+  | s, c :: t => match lexStep s c with
+    | some s' => lexRun s' t
+    | none => none
 
-/-- the file tail is lexically valid Go (nothing but comments after the last declaration) -/
-def validTail (t : Text) : Bool := commentsOnly (t.length + 1) t
+/-- the file tail is lexically valid Go: nothing but white space and complete comments up to EOF (a `//`
+comment may be ended by EOF) -/
+def validTail (t : Text) : Bool :=
+  match lexRun .code t with
+  | some .code => true
+  | some .line => true
+  | _ => false
 
 -- ---------------------------------------------------------------- re-parsing, repeated regeneration
 
@@ -358,7 +404,8 @@ text plus a final newline; the body is the implementation on its own lines. -/
 def NewMethod.toDecl (m : NewMethod) : Decl :=
   { isFunc := true, tok := "", recv := m.recv, name := m.name,
     doc := if m.doc == [] then [] else m.doc ++ ['\n'], specDoc := m.doc,
-    namedV := m.namedV, namedE := m.namedE, hdr := [], inner := '\n' :: '\t' :: (m.impl ++ ['\n']), hasBody := true }
+    namedV := m.namedV, namedE := m.namedE, hdr := [], inner := '\n' :: '\t' :: (m.impl ++ ['\n']), hasBody := true,
+    canon := m.impl }
 
 def accessorDecl (cfg : Cfg) (o : String) : Decl :=
   { isFunc := true, tok := "", recv := cfg.rtype, name := ucFirst o, doc := [], specDoc := [], namedV := "", namedE := "",
@@ -375,7 +422,7 @@ def rootDecl (cfg : Cfg) : Decl :=
 /-- the written file read back (imports are given un-pruned; the comment block is not a declaration) -/
 def reparse (cfg : Cfg) (nf : NewFile) : File :=
   { name := nf.name
-    imports := nf.imports.map fun i => { i with alias := if isSuffixStr i.alias i.path then "" else i.alias }
+    imports := nf.imports.map fun i => { i with alias := if omitAlias i then "" else i.alias }
     decls := (if nf.hasRoot then [rootDecl cfg] else []) ++ nf.methods.map (·.toDecl) ++
              nf.objects.map (accessorDecl cfg) ++ nf.objects.map (structDecl cfg) }
 
